@@ -147,6 +147,31 @@ theorem improvedCiede2000_lt_iff (x y u v : LabColorDiff ℝ) :
     improvedOfCiede (ciede2000 x y) < improvedOfCiede (ciede2000 u v) ↔ ciede2000 x y < ciede2000 u v :=
   improvedOfCiede_lt_iff (ciede2000_nonneg x y) (ciede2000_nonneg u v)
 
+/-! ## invariances: the Euclidean measures and HyAB see only component differences, and scale with them -/
+
+theorem dist3_translate (t1 t2 t3 x1 x2 x3 y1 y2 y3 : ℝ) :
+    dist3 (x1 + t1) (x2 + t2) (x3 + t3) (y1 + t1) (y2 + t2) (y3 + t3) = dist3 x1 x2 x3 y1 y2 y3 := by
+  rw [dist3_closed, dist3_closed]; congr 1; ring
+theorem dist3_scale (k x1 x2 x3 y1 y2 y3 : ℝ) :
+    dist3 (k * x1) (k * x2) (k * x3) (k * y1) (k * y2) (k * y3) = |k| * dist3 x1 x2 x3 y1 y2 y3 := by
+  rw [dist3_closed, dist3_closed, ← Real.sqrt_sq_eq_abs, ← Real.sqrt_mul (sq_nonneg k)]; congr 1; ring
+theorem hyab_translate (t1 t2 t3 l1 a1 b1 l2 a2 b2 : ℝ) :
+    hyab (l1 + t1) (a1 + t2) (b1 + t3) (l2 + t1) (a2 + t2) (b2 + t3) = hyab l1 a1 b1 l2 a2 b2 := by
+  rw [hyab_closed, hyab_closed]; congr 2 <;> ring
+theorem hyab_scale (k l1 a1 b1 l2 a2 b2 : ℝ) :
+    hyab (k * l1) (k * a1) (k * b1) (k * l2) (k * a2) (k * b2) = |k| * hyab l1 a1 b1 l2 a2 b2 := by
+  rw [hyab_closed, hyab_closed, mul_add, ← abs_mul, ← Real.sqrt_sq_eq_abs k, ← Real.sqrt_mul (sq_nonneg k)]
+  congr 1
+  · congr 1; ring
+  · congr 1; ring
+/-- HyAB dominates nothing smaller than the Euclidean distance: ΔE ≤ HyAB ≤ √2·ΔE -/
+theorem dist3_le_hyab (l1 a1 b1 l2 a2 b2 : ℝ) : dist3 l1 a1 b1 l2 a2 b2 ≤ hyab l1 a1 b1 l2 a2 b2 := by
+  rw [dist3_closed, hyab_closed, Real.sqrt_le_iff]
+  refine ⟨add_nonneg (abs_nonneg _) (Real.sqrt_nonneg _), ?_⟩
+  have hs := Real.sq_sqrt (show (0:ℝ) ≤ (a1 - a2) ^ 2 + (b1 - b2) ^ 2 by positivity)
+  have h1 : |l1 - l2| ^ 2 = (l1 - l2) ^ 2 := sq_abs _
+  nlinarith [mul_nonneg (abs_nonneg (l1 - l2)) (Real.sqrt_nonneg ((a1 - a2) ^ 2 + (b1 - b2) ^ 2))]
+
 /-- non-vacuity: a 3-4-5 witness, where the triangle inequality is strict for Euclid and tight for a collinear triple -/
 example : dist3 (0:ℝ) 0 0 3 4 0 = 5 := by
   rw [dist3_closed]; rw [show ((0:ℝ) - 3) ^ 2 + (0 - 4) ^ 2 + (0 - 0) ^ 2 = 5 ^ 2 by norm_num]; exact Real.sqrt_sq (by norm_num)
